@@ -482,6 +482,20 @@ def check_batch_search(ctx, fi, rule='R-COVER/batch-search'):
                         break
                     node = blk_owner
                     blk_owner = getattr(blk_owner, '_parent', None)
+                if not assigned:
+                    # ... or the break is taken only when an end has been
+                    # recorded in an earlier turn (`... and end is not
+                    # None: break`)
+                    from ..core.guards import none_facts
+                    cfg = cfg_of(fi)
+                    rd = rd_of(fi)
+                    for bn in cfg.nodes_of(br):
+                        if bn.id not in rd.live:
+                            continue
+                        _is, _not = none_facts(cfg, rd, bn.id)
+                        if any(isinstance(e_, ast.Name) and e_.id == var
+                               for e_ in _not):
+                            assigned = True
                 ctx.touch(fi)
                 ctx.ob(rule, f'{fi.qual}:{var}#{n - 1}', fi.loc(br),
                        assigned,
